@@ -845,6 +845,10 @@ func dischargeIndexSite(c *Check, ca *cursorAnalysis, s IndexSite) (discharge, b
 			}
 		}
 	case *ssa.IndexAddr:
+		// x[i] inside `for i := 0; i < len(x); i++` where x is the same field path read again
+		if how, ok := dischargeLoopBoundedIndex(fn, x); ok {
+			return how, true
+		}
 		// regex matchers: groups[i] and submatches[group]
 		if how, ok := dischargeRegexIndex(c, fn, x); ok {
 			return how, true
@@ -1319,4 +1323,54 @@ func dischargeLenGuardedSlice(fn *ssa.Function, x *ssa.Slice) (discharge, bool) 
 		return discharge{}, false
 	}
 	return discharge{"length-guard", "slice at n only on the edge where len(s) >= n, n non-negative"}, true
+}
+
+// dischargeLoopBoundedIndex: x[i] with i = 0,1,2,… reachable only on the edge i < len(x'),
+// where x' is x itself or the same field path read again and nothing in the function stores
+// to a field of that name.
+func dischargeLoopBoundedIndex(fn *ssa.Function, x *ssa.IndexAddr) (discharge, bool) {
+	if !ascendingIndex(x.Index) {
+		return discharge{}, false
+	}
+	if _, isSlice := x.X.Type().Underlying().(*types.Slice); !isSlice {
+		return discharge{}, false
+	}
+	same := func(v ssa.Value) bool {
+		if strip(v) == strip(x.X) {
+			return true
+		}
+		r1, n1, ok1 := fieldPath(v)
+		r2, n2, ok2 := fieldPath(x.X)
+		if !ok1 || !ok2 || len(n1) != len(n2) {
+			return false
+		}
+		for i := range n1 {
+			if n1[i] != n2[i] {
+				return false
+			}
+		}
+		// the roots must be the same value (or loads of the same cell)
+		if strip(r1) != strip(r2) {
+			c1, c2 := cellOf(r1), cellOf(r2)
+			if c1 == nil || c1 != c2 {
+				return false
+			}
+		}
+		// no store to a field of that name anywhere in the function
+		last := n2[len(n2)-1]
+		stored := false
+		allInstrs(fn, func(in ssa.Instruction) {
+			if st, ok := in.(*ssa.Store); ok {
+				if f := fieldOf(strip(st.Addr)); f != nil && f.Name() == last {
+					stored = true
+				}
+			}
+		})
+		return !stored
+	}
+	g := edgesWhere(fn, cCmp(token.LSS, vIs(x.Index), vLen(same)), true)
+	if ok, _ := guardedBy(fn, g, isInstr(x)); !ok || len(g) == 0 {
+		return discharge{}, false
+	}
+	return discharge{"loop-bound", "x[i] with i = 0,1,… only on the edge i < len(x)"}, true
 }
